@@ -59,7 +59,7 @@ def run_jobs(jobs, workers, timeout_s, scratch):
             log.close()
             del running[i]
             if not os.path.exists(job['out']):
-                tail = open(log.name, 'rb').read()[-1500:].decode('utf-8', 'replace')
+                tail = open(log.name, "rb").read()[-9000:].decode('utf-8', 'replace')
                 errors.append('job %d (%s) exited %s without a report: %s' % (i, job['kind'], rc, tail))
                 continue
             with open(job['out'], encoding='utf-8') as f:
